@@ -137,6 +137,12 @@ theorem sortDescs_append (old added : List Desc) (h : ∀ o ∈ old, ∀ m ∈ a
     exact Desc.le_of_ver_lt (h a (mem_sortDescs.1 ha) b (mem_sortDescs.1 hb))
   · exact (sortDescs_perm _).trans ((sortDescs_perm old).symm.append (sortDescs_perm added).symm)
 
+/-- A sorted permutation of the enumerated descriptors IS the id table (used to evaluate concrete id tables: the
+kernel does not unfold `mergeSort`'s well-founded recursion). -/
+theorem sortDescs_eq_of_sorted_perm {l s : List Desc} (hs : s.Pairwise (fun a b => Desc.le a b = true))
+    (hp : s.Perm l) : sortDescs l = s :=
+  eq_of_sorted_perm (sortDescs_sorted l) hs ((sortDescs_perm l).trans hp.symm)
+
 /-! ## Method ids -/
 
 theorem mem_idToMethod {cls : ClassDef} {d : Desc} : d ∈ idToMethod cls ↔ ∃ c ∈ cls, c.desc = d := by
